@@ -50,10 +50,45 @@ package sortref
 //@ func (s SplitKey) PathRef()
 //@   aspect safe
 //@   modifies nothing
+// the classification of keys by section (documented on each predicate): it decides which positions the flattener
+// visits (DepthFirst keeps only keys of one of these classes), so each predicate is pinned to its definition
 //@ func (s SplitKey) IsStatusCodeResponse()
 //@   aspect safe
 //@   modifies nothing
 //@   ensures result ==> len(s) > 4
+//@   ensures result == (len(s) > 4 && s[0] == "paths" && s[3] == "responses" && strconv.Atoi(s[4]).1 == nil)
+//@ func (s SplitKey) IsDefaultResponse()
+//@   aspect safe
+//@   modifies nothing
+//@   ensures result == (len(s) > 4 && s[0] == "paths" && s[3] == "responses" && s[4] == "default")
+//@ func (s SplitKey) IsOperationResponse()
+//@   aspect safe
+//@   modifies nothing
+//@   ensures result == (len(s) > 3 && s[0] == "paths" && s[3] == "responses")
+//@ func (s SplitKey) IsOperationParam()
+//@   aspect safe
+//@   modifies nothing
+//@   ensures result == (len(s) > 3 && s[0] == "paths" && s[3] == "parameters")
+//@ func (s SplitKey) IsSharedOperationParam()
+//@   aspect safe
+//@   modifies nothing
+//@   ensures result == (len(s) > 2 && s[0] == "paths" && s[2] == "parameters")
+//@ func (s SplitKey) IsSharedParam()
+//@   aspect safe
+//@   modifies nothing
+//@   ensures result == (len(s) > 1 && s[0] == "parameters")
+//@ func (s SplitKey) IsSharedResponse()
+//@   aspect safe
+//@   modifies nothing
+//@   ensures result == (len(s) > 1 && s[0] == "responses")
+//@ func (s SplitKey) IsDefinition()
+//@   aspect safe
+//@   modifies nothing
+//@   ensures result == (len(s) > 1 && s[0] == "definitions")
+//@ func (s SplitKey) IsOperation()
+//@   aspect safe
+//@   modifies nothing
+//@   ensures result == (len(s) > 1 && s[0] == "paths")
 //@ func (s SplitKey) isKeyName(i)
 //@   aspect safe
 //@   requires i <= len(s)
